@@ -153,7 +153,7 @@ fn getvalues_case<const N: usize>() {
     std::mem::forget(out);
 }
 
-// @harness name=c04_getvalues_state_2 props=C04,C03 tier=quick timeout=1200 rmbody=ioerr,nogrow dead=3
+// @harness name=c04_getvalues_state_2 props=C04,C03 tier=quick timeout=1200 rmbody=ioerr,nogrow mem=24 est=11 dead=3
 // @bound GetValuesState<HeaderState>: any accumulated set, payload_rem 0..65535, padding_rem 0..255, input of exactly 2 symbolic bytes (shorter bodies via payload_rem); parse_name / write_response replaced by the E5 models; E8 (io::Error drop = no-op)
 // @functions request::GetValuesState::drive, NVIter<&[u8]>::next, parser::parse_nv_var
 #[kani::proof]
@@ -162,7 +162,7 @@ fn getvalues_case<const N: usize>() {
 #[kani::stub(fcgi::ProtocolVariables::write_response, crate::verif_kani::write_response_model)]
 fn c04_getvalues_state_2() { getvalues_case::<2>(); }
 
-// @harness name=c04_getvalues_state_3 props=C04,C03 tier=quick timeout=1200 rmbody=ioerr,nogrow dead=1
+// @harness name=c04_getvalues_state_3 props=C04,C03 tier=quick timeout=1200 rmbody=ioerr,nogrow mem=24 est=11 dead=1
 // @bound GetValuesState<HeaderState>: any accumulated set, payload_rem 0..65535, padding_rem 0..255, input of exactly 3 symbolic bytes (shorter bodies via payload_rem); parse_name / write_response replaced by the E5 models; E8 (io::Error drop = no-op)
 // @functions request::GetValuesState::drive, NVIter<&[u8]>::next, parser::parse_nv_var
 #[kani::proof]
@@ -171,7 +171,7 @@ fn c04_getvalues_state_2() { getvalues_case::<2>(); }
 #[kani::stub(fcgi::ProtocolVariables::write_response, crate::verif_kani::write_response_model)]
 fn c04_getvalues_state_3() { getvalues_case::<3>(); }
 
-// @harness name=c04_getvalues_state_4 props=C04,C03 tier=quick timeout=1200 rmbody=ioerr,nogrow dead=1
+// @harness name=c04_getvalues_state_4 props=C04,C03 tier=quick timeout=1200 rmbody=ioerr,nogrow mem=24 est=11 dead=1
 // @bound GetValuesState<HeaderState>: any accumulated set, payload_rem 0..65535, padding_rem 0..255, input of exactly 4 symbolic bytes (shorter bodies via payload_rem); parse_name / write_response replaced by the E5 models; E8 (io::Error drop = no-op)
 // @functions request::GetValuesState::drive, NVIter<&[u8]>::next, parser::parse_nv_var
 #[kani::proof]
@@ -180,7 +180,7 @@ fn c04_getvalues_state_3() { getvalues_case::<3>(); }
 #[kani::stub(fcgi::ProtocolVariables::write_response, crate::verif_kani::write_response_model)]
 fn c04_getvalues_state_4() { getvalues_case::<4>(); }
 
-// @harness name=c04_getvalues_state_6 props=C04,C03 tier=thorough timeout=6000 rmbody=ioerr,nogrow dead=1
+// @harness name=c04_getvalues_state_6 props=C04,C03 tier=thorough timeout=6000 rmbody=ioerr,nogrow mem=24 est=11 dead=1
 // @bound GetValuesState<HeaderState>: any accumulated set, payload_rem 0..65535, padding_rem 0..255, input of exactly 6 symbolic bytes (shorter bodies via payload_rem); parse_name / write_response replaced by the E5 models; E8 (io::Error drop = no-op)
 // @functions request::GetValuesState::drive, NVIter<&[u8]>::next, parser::parse_nv_var
 #[kani::proof]
@@ -553,7 +553,7 @@ buffered_harness!(c01_parse_buffered_3, 3, 6);
 // @bound buffer = 5 symbolic bytes (incomplete pair prefix), new data 0..6 symbolic bytes, rec_end symbolic; make_cgivar = E4 model; E8
 // @functions ParamsStateInner::parse_buffered, try_fill!, VarInt::read
 buffered_harness!(c01_parse_buffered_5, 5, 6);
-// @harness name=c01_parse_buffered_8 props=C01,C03,C05 tier=thorough timeout=3000 rmbody=ioerr,nogrow
+// @harness name=c01_parse_buffered_8 props=C01,C03,C05 tier=thorough timeout=3000 rmbody=ioerr,nogrow dead=2
 // @bound buffer = 8 symbolic bytes (e.g. two complete 4-byte prefixes), new data 0..6 symbolic bytes, rec_end symbolic; make_cgivar = E4 model; E8
 // @functions ParamsStateInner::parse_buffered, try_fill!, VarInt::read
 buffered_harness!(c01_parse_buffered_8, 8, 6);
@@ -610,7 +610,7 @@ stream_harness!(c01_parse_stream_3, 3, false);
 // @bound empty carry-over buffer, record data of exactly 5 symbolic bytes (<= 2 pairs), rec_end symbolic; make_cgivar = E4 model; map insertion = no-op (E4c); E8
 // @functions ParamsStateInner::parse_stream, NVIter<&mut [u8]>::next
 stream_harness!(c01_parse_stream_5, 5, false);
-// @harness name=c01_parse_stream_7 props=C01,C03,C06 tier=thorough timeout=3000 rmbody=ioerr,nogrow,nomap
+// @harness name=c01_parse_stream_7 props=C01,C03,C06 tier=quick timeout=900 rmbody=ioerr,nogrow,nomap
 // @bound empty carry-over buffer, record data of exactly 7 symbolic bytes (<= 3 pairs), rec_end symbolic; make_cgivar = E4 model; map insertion = no-op (E4c); E8
 // @functions ParamsStateInner::parse_stream, NVIter<&mut [u8]>::next
 stream_harness!(c01_parse_stream_7, 7, false);
